@@ -296,6 +296,15 @@ def worker(ctx, job):
                     check_write(ctx, res, srv, cache, flavour, side, entry, key, algo, n, tag + 1, chunks, declared, write_op="w_write")
                 if count % 400 == 0:
                     fsutil.wipe(cache)
+    # write, clear through the library, write the very same data again (same process, same digest directories)
+    for n in (5, 1025):
+        key = ("k-%s" % entry) if keyed else None
+        check_write(ctx, res, srv, cache, flavour, side, entry, key, algo, n, 201, [n] if streamed else None, "none")
+        rep_ = srv.call({"op": "clear_sync" if side == "s" else "clear", "cache": cache})
+        before_v = len(res["violations"])
+        check_write(ctx, res, srv, cache, flavour, side, entry, key, algo, n, 201, [n] if streamed else None, "none")
+        for v_ in res["violations"][before_v:]:
+            v_["sig"] = v_["sig"].replace("write:", "write-after-clear:", 1)
     fsutil.wipe(cache)
     res["samples"].append({"kind": "data", "flavour": flavour, "side": side, "entry": entry, "algo": algo, "sizes": sizes[:4] + ["..."],
                            "example_chunking": tables.chunkings(5)[:3]})
